@@ -62,14 +62,23 @@ structure CodecLaws (cd : Codec α) : Prop where
 theorem recvOf_dz (cd : Codec α) (cfg : DecCfg) (e : Enc) (h : cfg.enc = some e) (b : Bytes) :
     (recvOf cd cfg).dz b = cd.dz e b := by simp [recvOf, h]
 
-theorem batch_wire (cd : Codec α) (cfg : DecCfg) (laws : CodecLaws cd) (xs : List (Sent α))
+/-- the codec laws restricted to the messages actually sent -/
+structure CodecLawsOn (cd : Codec α) (xs : List (Sent α)) : Prop where
+  de_ser : ∀ x ∈ xs, cd.de (cd.ser x.msg) = some x.msg
+  dz_cz : ∀ e b, cd.dz e (cd.cz e b) = some b
+
+theorem CodecLaws.on {cd : Codec α} (laws : CodecLaws cd) (xs : List (Sent α)) : CodecLawsOn cd xs :=
+  ⟨fun x _ => laws.de_ser x.msg, laws.dz_cz⟩
+
+theorem batch_wire_on (cd : Codec α) (cfg : DecCfg) (xs : List (Sent α)) (laws : CodecLawsOn cd xs)
     (h : ∀ x ∈ xs, SentOk cd cfg x) :
     batch (recvOf cd cfg) (Spec.Framing.frames (xs.map (wireOf cd cfg.enc))) = (xs.map (·.msg), .clean) := by
   induction xs with
   | nil => simp [Spec.Framing.frames, batch_nil]
   | cons x xs ih =>
     have hx := h x (by simp)
-    have ih' := ih (fun y hy => h y (by simp [hy]))
+    have hdx : cd.de (cd.ser x.msg) = some x.msg := laws.de_ser x (by simp)
+    have ih' := ih ⟨fun y hy => laws.de_ser y (by simp [hy]), laws.dz_cz⟩ (fun y hy => h y (by simp [hy]))
     obtain ⟨hlim, h32⟩ := hx
     simp only [List.map_cons, Spec.Framing.frames, Spec.Framing.frame, List.cons_append, List.nil_append]
     rw [batch_cons5, be32_u32 _ h32]
@@ -81,7 +90,7 @@ theorem batch_wire (cd : Codec α) (cfg : DecCfg) (laws : CodecLaws cd) (xs : Li
       rw [hw] at hnl ⊢
       simp only [header, recvOf_limit, recvOf_hasEnc, recvOf_de, hnl, ↓reduceIte, batchBody, Spec.Framing.payload, List.length_append]
       have : ¬ (cd.ser m).length + (Spec.Framing.frames (xs.map (wireOf cd cfg.enc))).length < (cd.ser m).length := by omega
-      simp [this, laws.de_ser, ih']
+      simp [this, hdx, ih']
     | true =>
       cases he : cfg.enc with
       | none =>
@@ -90,7 +99,7 @@ theorem batch_wire (cd : Codec α) (cfg : DecCfg) (laws : CodecLaws cd) (xs : Li
         rw [hw] at hnl ⊢
         simp only [header, recvOf_limit, recvOf_hasEnc, recvOf_de, hnl, ↓reduceIte, batchBody, Spec.Framing.payload, List.length_append]
         have : ¬ (cd.ser m).length + (Spec.Framing.frames (xs.map (wireOf cd none))).length < (cd.ser m).length := by omega
-        simp [this, laws.de_ser, ih']
+        simp [this, hdx, ih']
       | some e =>
         have hw : wireOf cd (some e) ⟨m, true⟩ = (1, cd.cz e (cd.ser m)) := by simp [wireOf]
         rw [he] at hnl ih'
@@ -98,6 +107,11 @@ theorem batch_wire (cd : Codec α) (cfg : DecCfg) (laws : CodecLaws cd) (xs : Li
         simp only [header, recvOf_limit, recvOf_hasEnc, recvOf_de, recvOf_dz cd cfg e he, he, hnl, ↓reduceIte, batchBody, Spec.Framing.payload, List.length_append]
         have : ¬ (cd.cz e (cd.ser m)).length + (Spec.Framing.frames (xs.map (wireOf cd (some e)))).length
             < (cd.cz e (cd.ser m)).length := by omega
-        simp [this, laws.dz_cz, laws.de_ser, ih']
+        simp [this, laws.dz_cz, hdx, ih']
+
+theorem batch_wire (cd : Codec α) (cfg : DecCfg) (laws : CodecLaws cd) (xs : List (Sent α))
+    (h : ∀ x ∈ xs, SentOk cd cfg x) :
+    batch (recvOf cd cfg) (Spec.Framing.frames (xs.map (wireOf cd cfg.enc))) = (xs.map (·.msg), .clean) :=
+  batch_wire_on cd cfg xs (laws.on xs) h
 
 end Framing
